@@ -5,9 +5,12 @@ package c06
 
 import (
 	"context"
+	"encoding/json"
 	"fmt"
+	"runtime"
 	"sort"
 	"strings"
+	"sync"
 	"time"
 
 	"github.com/Comcast/sheens/core"
@@ -370,9 +373,95 @@ func renderSpec(a *ref.ASpec, render string) (*core.Spec, error) {
 	}
 }
 
+// readers: a call that does not modify what it is given can run while others read it.  Many
+// goroutines step and walk from ONE state object (with permanent bindings), with ONE message
+// object and ONE props object, while readers serialise them - under the race detector, which
+// reports any write to what was given.
+func readers(cfg fw.Config, rec *fw.Rec) {
+	rec.Rule = "8 goroutines step and walk (ECMAScript, native identity, failing and rejecting programs) from one shared *State with permanent and structured bindings, one shared message and one shared StepProps while 3 readers serialise and iterate those objects; child built with -race: any report is a write to a given object (or an unsynchronised read of engine state)"
+	rec.Required = []string{"shared_input_rounds"}
+	progs := []*ref.Prog{
+		{Ops: []ref.Op{{Op: "inc", K: "n"}, {Op: "set", K: "seen", V: "yes"}}, Ret: "same"},
+		{Ops: []ref.Op{{Op: "del", K: "cfg!"}, {Op: "inc", K: "n"}}, Ret: "same"},
+		{Ops: []ref.Op{{Op: "fail", V: "F"}}, Ret: "same"},
+		{Ret: "null"},
+		{Ret: "fresh", Fresh: map[string]interface{}{"only": 1.0}},
+	}
+	for round := 0; round < cfg.Pick(12, 60); round++ {
+		native := round%2 == 1
+		a := &ref.ASpec{Name: "readers", Nodes: map[string]*ref.ANode{
+			"start": {Branching: &ref.ABranching{Type: "message", Branches: []*ref.ABranch{{HasPattern: true, Pattern: map[string]interface{}{"l": []interface{}{"?e", "p"}, "uid": "?u"}, Target: "act"}}}},
+			"act":   {Action: progs[round%len(progs)], Branching: &ref.ABranching{Type: "bindings", Branches: []*ref.ABranch{{Guard: progs[(round+1)%len(progs)], Target: "done"}, {HasPattern: true, Pattern: map[string]interface{}{"cfg!": map[string]interface{}{"k": "?k"}}, Target: "done"}, {Target: "done"}}}},
+			"done":  {}, "aerr": {},
+		}}
+		if round%3 == 1 {
+			a.ActionErrorBranches = true
+		}
+		spec, err := a.Compiled(native, ref.NativeNilErr)
+		if err != nil {
+			rec.Inconclusive("readers spec: " + err.Error())
+			return
+		}
+		st := &core.State{NodeName: "start", Bs: match.Bindings{"cfg!": map[string]interface{}{"k": 1.0, "deep": []interface{}{map[string]interface{}{"v": 1.0}}}, "name!": "keep", "n": 1.0, "arr": []interface{}{1.0, 2.0}}}
+		atAct := &core.State{NodeName: "act", Bs: st.Bs} // the same bindings map, at the action node
+		msg := map[string]interface{}{"uid": "m", "l": []interface{}{"q", "p"}, "k": 1.0}
+		props := core.StepProps{"p": map[string]interface{}{"k": "v"}, "l": []interface{}{1.0}}
+		ctl := &core.Control{Limit: 6}
+		stop := make(chan struct{})
+		var rwg, wg sync.WaitGroup
+		for k := 0; k < 3; k++ {
+			rwg.Add(1)
+			go func() {
+				defer rwg.Done()
+				for {
+					select {
+					case <-stop:
+						return
+					default:
+					}
+					json.Marshal(st)
+					json.Marshal(msg)
+					json.Marshal(props)
+					for range st.Bs {
+					}
+					runtime.Gosched()
+				}
+			}()
+		}
+		for g := 0; g < 8; g++ {
+			wg.Add(1)
+			go func(g int) {
+				defer wg.Done()
+				for k := 0; k < 40; k++ {
+					rec.Guard("C06:readers", a, func() {
+						switch (g + k) % 3 {
+						case 0:
+							spec.Walk(context.Background(), st, []interface{}{msg}, ctl, props)
+						case 1:
+							spec.Step(context.Background(), atAct, nil, ctl, props)
+						default:
+							spec.Step(context.Background(), st, msg, ctl, props)
+						}
+					})
+				}
+			}(g)
+		}
+		wg.Wait()
+		close(stop)
+		rwg.Wait()
+		rec.Eval(320)
+		rec.Bucket("shared_input_rounds")
+		rec.Nontrivial(fmt.Sprintf("readers-%d", round))
+	}
+}
+
 func Run(cfg fw.Config, rec *fw.Rec) {
+	if cfg.Part == "readers" {
+		readers(cfg, rec)
+		return
+	}
 	rec.Rule = "(a) every enumerated single-node configuration of C04's full vocabulary (failing / null-returning actions, rejecting / failing guards, invalid patterns, missing and @var targets, 4 error settings) x 5 states x 5 pendings, Step and Walk (limits 0,1,100), rendered with native actions (nil,err), native (partial,err), native identity action, and ECMAScript (sampled); (b) random multi-node specs with message sequences; deep snapshots of state, messages, control, props and spec are compared before/after, result maps are checked for identity with input maps, and the call is repeated; non-trivial = case whose result has a next state, an error, or emissions; distinct by canonical case"
-	rec.Required = []string{"op_step", "op_walk", "render_native-nilerr", "render_native-partial", "render_native-identity", "render_ecma", "path_action_failed", "path_error_node", "path_limit", "random_walks", "inplace_mutator_scripts", "builtin_state_scripts_repeated"}
+	rec.Required = []string{"op_step", "op_walk", "render_native-nilerr", "render_native-partial", "render_native-identity", "render_ecma", "path_action_failed", "path_error_node", "path_limit", "random_walks", "inplace_mutator_scripts", "builtin_state_scripts_repeated", "result_with_getters_exported_the_same_way_every_time", "walks_with_several_holding_breakpoints_repeated"}
 	rec.Assume = []string{"native actions copy their input before modifying it (except the identity action, which returns it untouched), so a write into caller-owned data is the engine's", "equality of repeated results is claimed for guarded branches with at most one candidate"}
 	cs := c04.Configs(true)
 	states := c04.States()
@@ -463,6 +552,69 @@ func Run(cfg fw.Config, rec *fw.Rec) {
 				if judge(rec, cd, spec, false) {
 					rec.Bucket("builtin_state_scripts_repeated")
 				}
+			}
+		}
+	}
+	// a script whose result has a getter that takes a moment: the result is exported after
+	// the program has returned, and every call must export it the same way (no spurious
+	// "timeout" when nobody cancelled anything)
+	const getterJS = `return {n: 1, get busy() { var k = 0; for (var i = 0; i < 30000; i++) { k += i % 7; } return k; }, nested: [{get inner() { return "v"; }}]};`
+	for _, position := range []string{"action", "guard"} {
+		a := scriptSpec(getterJS, position, 0)
+		spec, err := a.Compiled(false, ref.NativeNilErr)
+		if err != nil {
+			rec.Inconclusive("getter spec: " + err.Error())
+			continue
+		}
+		var first string
+		for rep := 0; rep < 60; rep++ {
+			w, err := spec.Walk(context.Background(), &core.State{NodeName: "start", Bs: match.Bindings{"a": 1.0}}, nil, &core.Control{Limit: 5}, nil)
+			rec.Eval(1)
+			got := walkedCanon(w, err)
+			if rep == 0 {
+				first = got
+				if strings.Contains(got, "timeout") || !strings.Contains(got, `busy`) {
+					rec.Violation("C06:repeat-differs:getter", "a result with a getter is not exported although the context was never cancelled: "+fw.Short(got), "getter script as "+position)
+					break
+				}
+				continue
+			}
+			if got != first {
+				rec.Violation("C06:repeat-differs:getter", fmt.Sprintf("a script that returns an object with a getter gives different results for identical calls under a context that is never cancelled:\n first: %s\n later: %s", fw.Short(first), fw.Short(got)), "getter script as "+position)
+				break
+			}
+			if rep == 59 {
+				rec.Bucket("result_with_getters_exported_the_same_way_every_time")
+			}
+		}
+	}
+	// several breakpoints that all hold: the same walk reports the same one every time
+	{
+		spec := &core.Spec{Name: "bp", Nodes: map[string]*core.Node{"start": {Branches: &core.Branches{Type: "message", Branches: []*core.Branch{{Pattern: map[string]interface{}{"uid": "?u"}, Target: "start"}}}}}}
+		if err := spec.Compile(context.Background(), nil, true); err == nil {
+			bps := map[string]core.Breakpoint{}
+			for _, id := range []string{"b3", "b1", "b4", "b2", "b0"} {
+				bps[id] = func(context.Context, *core.State) bool { return true }
+			}
+			first, same := "", true
+			for rep := 0; rep < 80; rep++ {
+				w, err := spec.Walk(context.Background(), &core.State{NodeName: "start", Bs: match.Bindings{}}, []interface{}{map[string]interface{}{"uid": "m"}}, &core.Control{Limit: 10, Breakpoints: bps}, nil)
+				rec.Eval(1)
+				if err != nil || w == nil {
+					same = false
+					break
+				}
+				got := fmt.Sprint(w.StoppedBecause, w.BreakpointId)
+				if rep == 0 {
+					first = got
+				} else if got != first {
+					rec.Violation("C06:repeat-differs:breakpoint", fmt.Sprintf("identical walks with several breakpoints that all hold report %s and then %s", first, got), "five breakpoints that all hold")
+					same = false
+					break
+				}
+			}
+			if same {
+				rec.Bucket("walks_with_several_holding_breakpoints_repeated")
 			}
 		}
 	}
